@@ -58,10 +58,17 @@ def code_lines(path):
     lines = open(path).read().split("\n")
     ok = []
     in_test = False
+    # src/helpers.rs: only the follow iterator is anchored in a property (the rest prints the table overview of the CLI)
+    only = None
+    if path.endswith("src/helpers.rs"):
+        a = next((i for i, l in enumerate(lines) if "pub struct FollowFileIterator" in l), 0)
+        b = next((i for i, l in enumerate(lines) if "pub fn tuple_result" in l), len(lines))
+        only = (a, b)
     for i, l in enumerate(lines):
         s = l.strip()
         if s.startswith("#[test]") or s.startswith("#[cfg(test)]") or re.match(r"^(pub )?fn test_", s):
             in_test = True      # tests sit at the end of the files of this repository
+        if only and not (only[0] <= i < only[1]): continue
         if in_test or not s or s.startswith("//") or s.startswith("#[") or "verif_hooks" in l or s.startswith("use "):
             continue
         ok.append(i)
